@@ -139,35 +139,40 @@ func wkPatternEnv(repo string) (string, error) {
 	case nil:
 		policy, source = "never", "none"
 	case *ast.Ident:
-		// a local: declared without a value, written only under `if len(group.Imports) != 0` from group.Imports
-		declared := false
-		for _, st := range gc.Body.List {
+		// a local: declared without a value, written only under `if len(group.Imports) != 0` from group.Imports; the body is
+		// exactly declaration, conditional construction, the config literal, the compilation (no look-aside table, no reuse)
+		if len(gc.Body.List) != 4 || cfgVar == "" {
+			return "", fmt.Errorf("gogrepCompile: body is not {declare the table; build it from %s.Imports; config literal; return gogrep.Compile(config)}", groupP)
+		}
+		want := []string{
+			"var " + v.Name + " map[string]string",
+			"if len(" + groupP + ".Imports) != 0 { " + v.Name + " = make(map[string]string) for _, imported := range " + groupP + ".Imports { " +
+				v.Name + "[imported.Name] = imported.Path } }",
+			"",
+			"return gogrep.Compile(" + cfgVar + ")",
+		}
+		for i, st := range gc.Body.List {
 			text := wkSrc(fset, st)
-			switch {
-			case text == "var "+v.Name+" map[string]string":
-				declared = true
-			case !wkMentions(st, v.Name):
-			case cfgVar != "" && strings.HasPrefix(text, cfgVar+" := gogrep.CompileConfig{"):
-			default:
-				_, ok := st.(*ast.IfStmt)
-				want := "if len(" + groupP + ".Imports) != 0 { " + v.Name + " = make(map[string]string) for _, imported := range " + groupP + ".Imports { " +
-					v.Name + "[imported.Name] = imported.Path } }"
-				if !ok || text != want {
-					return "", fmt.Errorf("gogrepCompile: statement on the import table not understood: %s", text)
+			if i == 2 {
+				if !strings.HasPrefix(text, cfgVar+" := gogrep.CompileConfig{") {
+					return "", fmt.Errorf("gogrepCompile: statement not understood: %s", text)
 				}
-				source = "group-argument"
+				continue
+			}
+			if text != want[i] {
+				return "", fmt.Errorf("gogrepCompile: statement not understood: %s", text)
 			}
 		}
-		if !declared || source == "" {
-			return "", fmt.Errorf("gogrepCompile: the import table %s is not a local built from %s.Imports", v.Name, groupP)
-		}
-		policy = "always"
+		source, policy = "group-argument", "always"
 	case *ast.SelectorExpr:
 		field, ok := wkSelField(v, recv)
 		if !ok {
 			return "", fmt.Errorf("gogrepCompile: CompileConfig.Imports not understood: %s", wkSrc(fset, v))
 		}
 		// a loader field: when is it written relative to loadRuleGroup's rule loop?
+		if len(gc.Body.List) != 2 || cfgVar == "" || wkSrc(fset, gc.Body.List[1]) != "return gogrep.Compile("+cfgVar+")" {
+			return "", fmt.Errorf("gogrepCompile: body is not {config literal; return gogrep.Compile(config)}")
+		}
 		source = "loader-field:" + field
 		lg := wkFindFunc(lf, "irLoader", "loadRuleGroup")
 		if lg == nil {
@@ -226,6 +231,7 @@ func wkPatternEnv(repo string) (string, error) {
 		}
 	}
 	ncompile, nlits := 0, 0
+	var sites []string
 	for _, d := range lf.Decls {
 		fd, ok := d.(*ast.FuncDecl)
 		if !ok || fd.Body == nil {
@@ -237,6 +243,12 @@ func wkPatternEnv(repo string) (string, error) {
 				se, ok := x.Fun.(*ast.SelectorExpr)
 				if !ok {
 					return true
+				}
+				if wkSrc(fset, se) == "gogrep.Compile" && fd != gc {
+					bad("%s compiles a pattern without gogrepCompile", fd.Name.Name)
+				}
+				if se.Sel.Name == "gogrepCompile" {
+					sites = append(sites, fd.Name.Name)
 				}
 				gi, isGroupFunc := groupFuncs[se.Sel.Name]
 				if !isGroupFunc || gi >= len(x.Args) {
@@ -299,7 +311,8 @@ func wkPatternEnv(repo string) (string, error) {
 	sb.WriteString("\n(* gogrepCompile: where CompileConfig.Imports comes from, when it is (re)built relative to the rule groups, and whether every\n   call site hands in the group being loaded *)\n")
 	fmt.Fprintf(&sb, "Definition gen_pattern_env_source : string := %q%%string.\nDefinition gen_pattern_env_policy : string := %q%%string.\n", source, policy)
 	fmt.Fprintf(&sb, "Definition gen_pattern_env_group_is_loaded_group : bool := %v.\nDefinition gen_pattern_env_flow_notes : list string := %s.\n", flowOK, wkCoqStrList(why))
-	fmt.Fprintf(&sb, "Definition gen_pattern_env_compile_sites : N := %d.\n", ncompile)
+	sort.Strings(sites)
+	fmt.Fprintf(&sb, "Definition gen_pattern_env_compile_sites : list string := %s.\n", wkCoqStrList(sites))
 	return sb.String(), nil
 }
 
